@@ -185,6 +185,41 @@ type task struct {
 	inside    atomic.Bool
 }
 
+// The lane accepts anything with a Start method. Besides the pointer type, tasks are handed over as values of two
+// other dynamic types (a func type and a struct holding a slice - neither is comparable or hashable), because
+// nothing in the contract says a task must be usable as a map key.
+type funcTask func()
+
+func (f funcTask) Start() { f() }
+
+type sliceTask struct {
+	t   *task
+	pad []int
+}
+
+func (v sliceTask) Start() { v.t.Start() }
+
+// wrap picks the dynamic type under which task t is pushed (by task id, so that programs stay deterministic).
+func (t *task) wrap() tasklane.Task {
+	switch t.id % 4 {
+	case 1:
+		return funcTask(t.Start)
+	case 2:
+		return sliceTask{t: t, pad: []int{t.id}}
+	}
+	return t
+}
+
+func unwrap(tk tasklane.Task) *task {
+	switch v := tk.(type) {
+	case *task:
+		return v
+	case sliceTask:
+		return v.t
+	}
+	return nil // a funcTask cannot be traced back; only used for statistics
+}
+
 type freeze struct {
 	point string
 	lane  int
@@ -318,7 +353,7 @@ func (s *sim) hook(point string, lane int, tk tasklane.Task) {
 	s.mu.Lock()
 	s.res.HookHits[point]++
 	s.mu.Unlock()
-	if t, ok := tk.(*task); ok && point == "W1" {
+	if t := unwrap(tk); t != nil && point == "W1" {
 		t.startedBy.Store(int32(lane))
 		if lane != t.lane {
 			s.mu.Lock()
@@ -468,7 +503,7 @@ func (s *sim) push(t *task, producer bool) {
 		synctest.Wait()
 		before = s.tl.Status().PendingTask
 	}
-	err := s.tl.PushTask(t, t.lane)
+	err := s.tl.PushTask(t.wrap(), t.lane)
 	s.mu.Lock()
 	t.err, t.pushed, t.afterCxl = err, true, after
 	switch {
@@ -694,6 +729,15 @@ func (s *sim) shutdown(maxSleep time.Duration) {
 			}
 		}(h)
 	}
+	// Wait() may be called by several goroutines; all of them are released
+	var waiters sync.WaitGroup
+	for w := 0; w < 2; w++ {
+		waiters.Add(1)
+		go func() {
+			defer waiters.Done()
+			s.tl.Wait()
+		}()
+	}
 	waitCalled := time.Now()
 	s.tl.Wait() // if a lane goroutine never exits, the bubble reports a deadlock here
 	if last := time.Unix(0, s.lastReturn.Load()); s.lastReturn.Load() != 0 && last.After(waitCalled) {
@@ -726,6 +770,7 @@ func (s *sim) shutdown(maxSleep time.Duration) {
 		}
 	}
 	s.mu.Unlock()
+	waiters.Wait()     // every concurrent Wait() call returns (a stuck one is a bubble deadlock)
 	s.producers.Wait() // producers blocked at the time of the cancel must have been released
 	s.pollers.Wait()
 	s.checkStatus("after Wait")
